@@ -7,6 +7,10 @@ V = os.path.dirname(os.path.dirname(os.path.abspath(__file__)))
 TRUST = "Trusted: TLC/SANY and the CommunityModules Json reader; the Go projection functions of the harness; "
 
 CLAIMED = {
+ "C03": dict(
+   tech="TLA+ decision-table model DeviceAuth.tla (contract + implementation-shaped decision, 5 seeded-defect configs) checked exhaustively by TLC; per-line trace validation of real devicefinder.Default on a real profiledb.Default behind the real ratelimitmw",
+   text="TLC enumerates the abstract product of protocol, DoH path id, userinfo, TLS server name, EDNS CPE option, local/remote address classes, server settings and database state (41k factored vectors quick, 13.7M unfactored thorough) and proves the recognition clauses (valid channel, live membership, DoH-only never elsewhere and only with the right password, bad password never recognised, auth failure is anonymous downstream, DNSCrypt anonymous, precedence) for the contract and the implementation-shaped decision. Every factored vector plus seeded unfactored ones is concretised (id lengths and near misses, case flips, nested server names, human ids, odd paths, real Authorization headers, decoy EDNS options, 4-in-6 addresses), executed on a fresh real profile database filled by scripted syncs, and each recorded line (Find result and the RequestInfo the next handler sees) is checked by TLC.",
+   note=TRUST + "bcrypt via agdpasswd; the transport servers' filling of dnsserver.RequestInfo is assumed; the contract is a set where the documentation leaves the choice open (never recognising anybody).", ref="6 C03"),
  "C04": dict(
    tech="TLA+ spec CacheCore.tla (keyed TTL cache over quarter-second time) model-checked by TLC with two sanity configs; TLC-generated and seeded histories run through the real simple and ECS-aware cache middlewares under a virtual clock, each query also answered by a cold instance; traces validated by TLC (TraceCacheCore.tla)",
    text="TLC checks HitEqualsFresh, TTLBound, NothingAfterExpiry and OnlyCacheable over all histories of 3 keys within a 4 s horizon in quarter-second steps; the real middlewares are then driven through histories of queries (names shared across qtype/qclass/DO variants, mixed case, AD/CD bits, every answer class the property lists plus non-cacheable ones) interleaved with clock advances landing around expiry; TLC explains every hit by a live entry stored for the same key, equal to what a cold instance answers now, with every served TTL bounded by ceil(original - age); fromCacheItem of both caches is exercised at every quarter second of an item's life.",
